@@ -43,6 +43,8 @@ pub struct GenOpts {
     pub any: bool,
     /// adjacent groups may end in an optional word member (`--point X [Y]`)
     pub adjacent_optional_words: bool,
+    /// an unrestricted positional may be declared after strict ones (`strict.many()`, `REST.many()`)
+    pub any_after_strict: bool,
     /// custom help/version flag names
     pub custom_help: bool,
     /// chains of `adjacent()` commands (`cmd1 --a cmd2 --b cmd1 ..`)
@@ -79,6 +81,7 @@ impl GenOpts {
             usage_fallback: false,
             any: false,
             adjacent_optional_words: false,
+            any_after_strict: false,
             custom_help: false,
             adjacent_cmds: false,
         }
@@ -112,6 +115,7 @@ impl GenOpts {
             usage_fallback: false,
             any: false,
             adjacent_optional_words: false,
+            any_after_strict: false,
             custom_help: false,
             adjacent_cmds: false,
         }
@@ -180,6 +184,17 @@ impl<'a> Pool<'a> {
             };
             if self.shorts.insert(c) {
                 return Some(c);
+            }
+        }
+        None
+    }
+
+    /// short alias of a command: a word on the line, so not a digit (value tokens are numbers)
+    pub fn cmd_short(&mut self) -> Option<char> {
+        for _ in 0..4 {
+            match self.short() {
+                Some(c) if c.is_ascii_digit() => continue,
+                other => return other,
             }
         }
         None
@@ -519,6 +534,15 @@ impl<'a> Pool<'a> {
             };
             res.push(s);
         }
+        if self.o.any_after_strict && b < total && self.rng.chance(1, 3) {
+            // a strict positional never lets a word from the left of `--` through to this one
+            let it = Spec::Item(self.pos_item(Strict::Any));
+            res.push(match self.rng.below(3) {
+                0 => Spec::wrap(W::Optional { catch: false }, self.id(), it),
+                1 => Spec::wrap(W::Fallback, self.id(), it),
+                _ => Spec::wrap(W::Many { catch: false }, self.id(), it),
+            });
+        }
         if self.o.any && self.rng.chance(1, 6) {
             // a catch-all at the very end: `any("REST", ..).many()`
             let accept = if self.rng.chance(1, 2) {
@@ -580,7 +604,7 @@ impl<'a> Pool<'a> {
             names.push(self.cmd_name());
         }
         if self.o.aliases && self.rng.chance(1, 4) {
-            if let Some(c) = self.short() {
+            if let Some(c) = self.cmd_short() {
                 shorts.push(c);
             }
         }
